@@ -1,9 +1,12 @@
 package props
 
 import (
+	"go/ast"
+	"go/types"
 	"strings"
 
 	"verif/internal/an"
+	"verif/internal/flow"
 )
 
 func init() {
@@ -71,6 +74,50 @@ func runC03(c *Ctx) {
 		r.Order("C03-P3", u, an.Call("wal.(*WAL).sync", "wal.(*WAL).cut"), saved, an.OrderOpts{Success: an.NilErr, Min: 2})
 		r.ArgValues("C03-P3", u, an.Call("wal.(*WAL).saveEntry"), 0, []string{"&p1[i]"}, 1)
 		r.ArgValues("C03-P3", u, an.Call("wal.(*WAL).saveState"), 0, []string{"&p0"}, 1)
+		// record order inside one Save: the hard-state record (which carries the commit index) is written after the
+		// entries, so a torn tail never leaves a commit index beyond the entries that survived
+		for _, st := range u.Match(an.Call("wal.(*WAL).saveState")) {
+			bad := ""
+			for _, e := range u.Match(an.Call("wal.(*WAL).saveEntry")) {
+				if reaches(u, st, e) {
+					bad = u.Pos(e.Pos)
+				}
+			}
+			r.Check("C03-P3", u.Name+": no entry record is written after the hard-state record of the same Save", u.Pos(st.Pos), bad == "", "saveEntry at "+bad+" is reachable after saveState")
+			// the sync decision compares with the previous state: it is taken before saveState replaces recv.state
+			late := ""
+			for _, s := range u.Sites {
+				if s == st || !reaches(u, st, s) {
+					continue
+				}
+				var e ast.Expr
+				switch {
+				case s.Kind == flow.SCall && s.Call != nil:
+					e = s.Call
+				case s.Kind == flow.SStore && s.RHS != nil:
+					e = s.RHS
+				}
+				if e == nil {
+					continue
+				}
+				found := false
+				ast.Inspect(e, func(n ast.Node) bool {
+					if sel, ok := n.(*ast.SelectorExpr); ok && sel.Sel.Name == "state" {
+						if f, ok := u.Info().ObjectOf(sel.Sel).(*types.Var); ok && f.IsField() && c.W.FieldNames[f] == "wal.WAL.state" {
+							found = true
+						}
+					}
+					return !found
+				})
+				if found {
+					late = u.Pos(s.Pos)
+				}
+			}
+			r.Check("C03-P3", u.Name+": the previous hard state is not consulted after saveState replaced it", u.Pos(st.Pos), late == "", "recv.state is read at "+late+", after saveState stored the new state: a vote or term change can no longer be seen")
+		}
+	}
+	if u := c.unit("C03-P3", "wal.(*WAL).saveState"); u != nil {
+		r.Require("C03-P3", u, an.Store("wal.WAL.state"), "Save compares the next hard state with the one recorded here")
 	}
 	if u := c.unit("C03-P3", "wal.(*WAL).cut"); u != nil {
 		r.Order("C03-P3", u, an.Call("os.Rename"), []an.M{an.Call("wal.(*WAL).sync")}, an.OrderOpts{Success: an.NilErr, Min: 1})
@@ -100,6 +147,10 @@ func runC03(c *Ctx) {
 		r.StoreValues("C03-P4", u, an.Store("raft.raft.Vote"), []string{"p0.Vote"}, 1)
 		r.StoreValues("C03-P4", u, an.Store("raft.raft.Term"), []string{"p0.Term"}, 1)
 		r.StoreValues("C03-P4", u, an.Store("raft.raftLog.committed"), []string{"p0.Commit"}, 1)
+		// all three are restored on every path that returns (the range check panics, which is no return)
+		for _, f := range []string{"raft.raft.Vote", "raft.raft.Term", "raft.raftLog.committed"} {
+			r.Order("C03-P4", u, an.Return(), []an.M{an.Store(f)}, an.OrderOpts{Min: 1})
+		}
 	}
 	if u := c.unit("C03-P4", "raft.isHardStateEqual"); u != nil {
 		r.ReturnFormula("C03-P4", u, "p0.Term == p1.Term && p0.Vote == p1.Vote && p0.Commit == p1.Commit", an.ActualImpliesWant)
